@@ -178,8 +178,9 @@ theorem transform_defs (m : CMat) :
   rcases h with h | h | h | h | h <;> subst h <;> simp only [applyTransform, Option.some.injEq] at ht <;>
     subst ht <;> simp [realResult]
 
-/-- Default `data_type`: `"node"` exactly for P1 spaces, `"element"` for every other space; an explicit value is
-never overridden. -/
+/-- Default `data_type`: `"node"` exactly when `space.identifier` equals the string `export` tests (`"p1"`),
+`"element"` for every other space; an explicit value is never overridden.  (Observation reported with C19: no
+library space has the identifier `"p1"`, so the default is `"element"` for every real space, P1 included.) -/
 theorem default_data_type (f : GridFun) (dt : DataType) :
     defaultDataType .unset (some f) = (if f.isP1 then .node else .element) ∧
     (dt ≠ .unset → defaultDataType dt (some f) = dt) := by
